@@ -264,6 +264,11 @@ func workerRun(t *testing.T) {
 			shrinks++
 			before := len(cr.choices.Sched)
 			in2, meta2, cr2, execs := shrinkCase(t, p, cloneInput(p, in), meta, cr, tier)
+			if os.Getenv("SIM_DEBUG_SHRINK") != "" {
+				a := execCase(t, p, cloneInput(p, in2), meta2, &chooser{mode: modeStrict, in: cr2.choices}, tier, true)
+				b := execCase(t, p, cloneInput(p, in2), meta2, &chooser{mode: modeStrict, in: cr2.choices}, tier, true)
+				fmt.Printf("DEBUG shrink: recorded hash %x, strict re-exec %x / %x diverged=%q\n", cr2.hash, a.hash, b.hash, a.diverged)
+			}
 			info := shrinkInfo{Execs: execs, SchedBefore: before, SchedAfter: len(cr2.choices.Sched), InputBefore: len(inJSON), InputAfter: len(mustJSON(in2))}
 			fo := writeReplay(p, replayDir, vseed, i, seed, tier, meta2, in2, cr2, info)
 			seenFail[fo.Clause+"|"+fo.Key]++
@@ -325,7 +330,10 @@ func workerReplay(t *testing.T) {
 		os.Exit(2)
 	}
 	ch := &chooser{mode: modeStrict, in: rp.Choices}
-	cr := execCase(t, p, in, rp.Meta, ch, rp.Tier, true)
+	if os.Getenv("SIM_LOOSE") != "" {
+		ch.mode = modeLoose
+	}
+	cr := execCase(t, p, in, rp.Meta, ch, rp.Tier, os.Getenv("SIM_NOLOG") == "")
 	out := replayOut{Property: rp.Property, Hash: cr.hash, Diverged: cr.diverged, Trouble: cr.trouble}
 	if cr.fail != nil {
 		out.Failed = true
@@ -371,13 +379,22 @@ func workerHashes(t *testing.T) {
 	vseed := envU64("VERIF_SEED", 1)
 	from, to := envInt("SIM_FROM", 0), envInt("SIM_TO", 32)
 	var lines []string
+	for rep := 0; rep < envInt("SIM_REPEAT", 1); rep++ {
 	for i := from; i < to; i++ {
 		seed := RunSeed(vseed, id, i)
 		gr := NewRand(seed)
 		meta := genMeta(gr)
 		in := genInput(p, i, gr, tier)
 		ch := &chooser{mode: modeGen, rng: NewRand(mix(seed, 0x5eed)), switchDen: meta.SwitchDen}
-		cr := execCase(t, p, in, meta, ch, tier, false)
+		cr := execCase(t, p, in, meta, ch, tier, os.Getenv("SIM_DUMPLOG") != "")
+		if os.Getenv("SIM_DUMPLOG") != "" {
+			fmt.Println("INPUT", string(mustJSON(in)))
+			for si, lg := range cr.logs {
+				for _, e := range lg {
+					fmt.Printf("LOG sim%d step%d task%d %s %s\n", si, e.Step, e.Task, whyName(e.Why), siteName(e.Site))
+				}
+			}
+		}
 		outcome := "ok"
 		if cr.fail != nil {
 			outcome = cr.fail.Clause
@@ -386,6 +403,7 @@ func workerHashes(t *testing.T) {
 			outcome = "TROUBLE " + cr.trouble
 		}
 		lines = append(lines, fmt.Sprintf("%s %d %016x steps=%d sched=%d draws=%d %s", id, i, cr.hash, cr.stats.steps, len(cr.choices.Sched), len(cr.choices.Draws), outcome))
+	}
 	}
 	out := ""
 	for _, l := range lines {
